@@ -130,6 +130,7 @@ use super::resource::Resource;
 use crate::io::Fd;
 use crate::job::Pid;
 use crate::job::ProcessState;
+use crate::path::Component;
 use crate::path::Path;
 use crate::path::PathBuf;
 use crate::semantics::ExitStatus;
@@ -976,7 +977,18 @@ impl Chdir for VirtualSystem {
         let inode = self.resolve_existing_file(AT_FDCWD, path, /* follow links */ true)?;
         if matches!(&inode.borrow().body, FileBody::Directory { .. }) {
             let mut process = self.current_process_mut();
-            let new_path = process.cwd.join(path);
+            // The working directory is kept in the canonical form that
+            // `getcwd` is expected to return: no `.` or `..` components.
+            let mut new_path = PathBuf::from("/");
+            for component in process.cwd.join(path).components() {
+                match component {
+                    Component::Normal(name) => new_path.push(name),
+                    Component::ParentDir => {
+                        new_path.pop();
+                    }
+                    Component::RootDir | Component::CurDir => (),
+                }
+            }
             process.chdir(new_path);
             Ok(())
         } else {
